@@ -77,7 +77,8 @@ def run_tolower(repo, lower_raises=False, with_lower=True, cell=None):
     o = Obj(base)
     kk, init = repo.find_method(base, "__init__")
     it.call_function(init, kk, ("obj", o), [], {}, depth=0)
-    lock = [v for k_, v in o.fields.items() if k_ == "lock"]
+    # the layer's lock: whatever lock object the constructor bound to the instance (any attribute name) that toLower takes
+    locks = [v for k_, v in o.fields.items() if isinstance(v, tuple) and v[0] == "ext" and v[1].split(".")[-1] in ("Lock()", "RLock()", "Semaphore()", "BoundedSemaphore()", "Condition()")]
     o.fields["_YowLayer__lower"] = lower if with_lower else C_NONE
     it.effects[:] = []
     raised = None
@@ -86,6 +87,8 @@ def run_tolower(repo, lower_raises=False, with_lower=True, cell=None):
     except _Raise as r:
         raised = r.text
     effs = list(flat_effects(it.effects))
+    taken = [e[3] for e in effs if e[0] == "CALL" and len(e) > 3 and e[1].endswith(".acquire")] + [e[1] for e in effs if e[0] == "ENTER"]
+    lock = [v for v in locks if any(t is v for t in taken)] or ([locks[0]] if len(locks) == 1 and not taken else [])
     lk = lock[0] if lock else None
     return ([(lock_balance(e, lk) if lk is not None else None, a) for e, a in held_at_send], lock_balance(effs, lk) if lk is not None else None, raised, lk)
 
@@ -117,7 +120,10 @@ def rule_hoh(ctx):
         ctx.undecided("C11.hoh", w, fn, "toLower depends on a test the interpreter cannot decide: %s" % (x.atom,))
         return
     if lk is None or lk[0] != "ext":
-        ctx.undecided("C11.hoh", w, fn, "the layer's lock (self.lock bound by the constructor) was not identified")
+        # toLower takes no lock object that the constructor bound to the instance: either nothing is bound (the attribute
+        # it names does not exist: AttributeError on every send) or the lock is shared / not a lock
+        ctx.violate("C11.hoh", w, "lower.send(data) inside the critical section of self.lock",
+                    "toLower does not take a lock that the constructor binds to the instance (no instance attribute holds a threading.Lock that toLower acquires): the hand-over-hand discipline has no per-layer mutex - the attribute it names is missing (AttributeError on every send) or is not this layer's own lock")
         return
     inside = len(ok_s) == 1 and ok_s[0][0] == 1 and ok_s[0][1] == [("ext", "DATA", [])] and r_s is None
     ctx.check("C11.hoh", inside and not ok_n and r_n is None, w, "lower.send(data) inside the critical section of self.lock",
@@ -422,6 +428,82 @@ def rule_threads(ctx):
     ctx.check("C11.threads", users == {NET}, where(NET, "YowNetworkLayer", None), "dispatcher writes from %s" % sorted(users), "only the network layer may write to the dispatcher", "only the network layer writes to the socket")
 
 
+def rule_entry(ctx):
+    """the first layer of the transport chain (the coder: application threads, the keep-alive thread and protocol layers
+    all enter here, in a stack without anything above it concurrently) hands each stanza down through its own locked
+    toLower; nothing before that hand-over is protected by a lock, so the send path must not write any per-layer state
+    (a reused output buffer, a cached encoder field): by abstract execution of send(<a stanza>) on a layer built by the
+    real constructor, with a write barrier on every object reachable from the layer"""
+    from ..absint import Interp, Obj, _Raise, NeedAtom, Budget, DomainGrew, C_NONE, enumerate_cells
+    from ..layers import LayerRunner
+    repo = ctx.repo
+    rel = "yowsup/layers/coder/layer.py"
+    cls = repo.cls(rel, "YowCoderLayer")
+    k, send = repo.find_method(cls, "send")
+    w = where(rel, "YowCoderLayer.send", getattr(send, "lineno", None))
+    if send is None:
+        ctx.undecided("C11.entry", w, "send", "YowCoderLayer.send vanished")
+        return
+
+    def reachable(v, seen, out, path):
+        if not isinstance(v, tuple) or not v:
+            return
+        if v[0] == "obj":
+            if v[1].id in seen:
+                return
+            seen.add(v[1].id)
+            out.append((v[1], path))
+            for f, x in v[1].fields.items():
+                reachable(x, seen, out, path + "." + f if path else f)
+        elif v[0] in ("list", "dict"):
+            out.append((v[1], path))
+            for x in (v[1] if v[0] == "list" else v[1].values()):
+                reachable(x, seen, out, path + "[]")
+        elif v[0] == "c" and isinstance(v[1], (bytearray, list, dict, set)):
+            out.append((v[1], path))
+
+    def run(cell, domains):
+        runner = LayerRunner(repo, {})
+        it = Interp(repo, cell, domains, hooks=runner.hooks())
+        it.layer_base = runner.base
+        it.max_steps = 500000           # the real token dictionary and encoder are executed
+        layer = runner.make_layer(it, cls)
+        objs = []
+        reachable(layer, set(), objs, "self")
+        writes = []
+
+        def on_write(kind, target, detail, node):
+            t = target[1]
+            for o, path in objs:
+                if o is t:
+                    writes.append((path, kind, detail, getattr(node, "lineno", None)))
+        node = it.new_node([("c", "message"), ("dict", {"id": ("c", "1"), "to": ("c", "123@s.whatsapp.net")}), C_NONE, ("c", b"payload")], {})
+        it.on_write = on_write
+        raised = None
+        try:
+            it.call_function(send, k, layer, [node], {}, depth=0)
+        except _Raise as r:
+            raised = r.text
+        it.on_write = None
+        downs = [e for e in it.effects if e[0] == "DOWN"]
+        return {"writes": writes, "downs": len(downs), "raised": raised, "objects": len(objs)}, it
+    try:
+        cells = enumerate_cells(run, {}, max_cells=512)
+    except (Budget, NeedAtom, DomainGrew) as x:
+        ctx.undecided("C11.entry", w, "send", "send could not be executed: %s" % (x,))
+        return
+    writes = sorted({wr for _c, r in cells for wr in r["writes"]})
+    reached = [r for _c, r in cells if r["downs"]]
+    if not reached:
+        ctx.undecided("C11.entry", w, "send", "no executed path hands the stanza down (%s)" % sorted({str(r["raised"])[:50] for _c, r in cells}))
+        return
+    ctx.units["C11.entry_objects_watched"] = max(r["objects"] for _c, r in cells)
+    ctx.check("C11.entry", not writes, w, "send writes no per-layer state before the locked hand-over",
+              "the send path writes %s (%s at line %s) outside any lock: two threads entering the chain here (nothing above the coder serialises them) overwrite each other's stanza - one is transmitted twice, the other never" % (
+                  writes[0][0] if writes else "", "%s %s" % (writes[0][1], writes[0][2]) if writes else "", writes[0][3] if writes else ""),
+              "%d object(s) reachable from the layer watched over %d path class(es): none written" % (ctx.units["C11.entry_objects_watched"], len(cells)))
+
+
 def run(ctx):
     ctx.rule("C11.hoh", "toLower abstractly executed: lower send inside the critical section of a per-instance lock, released on every exit", floor=3)
     ctx.rule("C11.only", "toLower is the only way down; not overridden", floor=30)
@@ -431,6 +513,7 @@ def run(ctx):
     ctx.rule("C11.once", "each core layer forwards once", floor=4)
     ctx.rule("C11.disp", "dispatcher output buffer: one lock for the sender thread and the asyncore loop thread", floor=3)
     ctx.rule("C11.threads", "thread entry points use the locked chain", floor=3)
+    ctx.rule("C11.entry", "the chain's entry layer writes no unprotected state on its send path", floor=1)
     ctx.assume("consonance's write_segment calls back synchronously; asyncore's initiate_send sends a prefix of out_buffer and removes exactly what was sent")
     ctx.guarded("C11.hoh", rule_hoh, ctx)
     full = ctx.guarded("C11.adj", rule_adj, ctx)
@@ -440,3 +523,4 @@ def run(ctx):
     ctx.guarded("C11.once", rule_once_frame, ctx)
     ctx.guarded("C11.disp", rule_disp, ctx)
     ctx.guarded("C11.threads", rule_threads, ctx)
+    ctx.guarded("C11.entry", rule_entry, ctx)
